@@ -1,6 +1,6 @@
 (* Properties.v - the property theorems and nothing else.  Every theorem is
    closed by [exact <lemma>] and followed by Print Assumptions. *)
-From NTRIP Require Import Base Bits BitsProofs Crc CrcProofs Time Classify Frame FrameSpec FrameProofs Html Queue QueueProofs ClassifyProofs Retry RetryProofs TimeSpec History WriteProofs EncProofs TimeProofs SegProofs Msm Station StationProofs Range RangeProofs FloatProofs Net Pipe PipeFrames FilterProofs ProdCons MsmSpec MsmProofs MsmRoundtrip.
+From NTRIP Require Import Base Bits BitsProofs Crc CrcProofs Time Classify Frame FrameSpec FrameProofs Html Queue QueueProofs ClassifyProofs Retry RetryProofs TimeSpec History WriteProofs EncProofs TimeProofs SegProofs Msm Station StationProofs Range RangeProofs FloatProofs Net Pipe PipeFrames FilterProofs ProdCons MsmSpec MsmProofs MsmRoundtrip DetermProofs.
 From NTRIPGen Require Import GenConsts.
 From Coq Require Import Reals Floats.
 From Flocq Require Import Core IEEE754.BinarySingleNaN IEEE754.PrimFloat.
@@ -85,6 +85,26 @@ Proof.
   exists ms, h'. repeat split; assumption.
 Qed.
 Print Assumptions C02_lossless.
+
+(* The same with channels and schedules (the network of Pipe.v with one consumer): for all
+   capacities of the byte, message and consumer channels and every schedule of producer,
+   framer and consumer, executions are finite and end with the consumer holding the lossless
+   segmentation, the framer halted and the output channel closed. *)
+Theorem C02_every_schedule : forall t0 (input : list N) cap0 cap1 capc,
+  (1 <= cap0)%nat -> (1 <= cap1)%nat -> (1 <= capc)%nat ->
+  exists n, forall m c,
+    steps _ (nstep _ _ _ (Pipe.prog N msg (list N) (fun acc b => (acc ++ [b], [])) (frame_flush t0) 1 (fun _ => true))
+                   Pipe.sender Pipe.receiver (SkDone _ _ _)) m
+          (Pipe.init N msg (list N) 1 cap0 cap1 [capc] input []) c ->
+    (m <= n)%nat /\
+    (final_config _ _ _ (Pipe.prog N msg (list N) (fun acc b => (acc ++ [b], [])) (frame_flush t0) 1 (fun _ => true))
+                  Pipe.sender Pipe.receiver (SkDone _ _ _) c ->
+     concat (map raw (sink_out N msg (list N) c 0)) = input /\
+     Forall (fun x => raw x <> []) (sink_out N msg (list N) c 0) /\
+     halted N msg (list N) (fun acc b => (acc ++ [b], [])) (frame_flush t0) 1 (fun _ => true) c 1 /\
+     closed (nth 1 (chans c) (dchan _)) = true).
+Proof. exact lossless_every_schedule. Qed.
+Print Assumptions C02_every_schedule.
 
 Example C02_example :
   exists ms h', handle_stream (new_handler 0) [65; 211; 66; 67; 68; 69; 211]%N = Ok (ms, h') /\
@@ -264,6 +284,15 @@ Theorem C15_state_independent : forall h1 h2 b,
   result_core (get_message h1 b) = result_core (get_message h2 b).
 Proof. exact get_message_state_independent. Qed.
 Print Assumptions C15_state_independent.
+
+(* The same for whole streams: what the stream handler delivers for a byte stream - types, raw
+   bytes, error texts, raw timestamps, whether a time could be derived - is the same for every
+   handler state, i.e. whatever start time the handler was created with and whatever it has
+   processed before (a handler's state after any history is just another state). *)
+Theorem C15_stream_state_independent : forall h1 h2 input,
+  stream_core (handle_stream h1 input) = stream_core (handle_stream h2 input).
+Proof. exact stream_state_independent. Qed.
+Print Assumptions C15_stream_state_independent.
 
 (* ===================== C03 ===================== *)
 (* If a stream is a sequence of valid frames (any type, payload 1..1023 bytes, 0xD3 bytes
